@@ -151,7 +151,8 @@ def r3_boundary(ctx, F, cb):
                       bad='%s spawn: initial `generated` entries do not derive from the filtered '
                           'initial states' % cb.strat)
             # initial jobs: JobBroker::push(collect(map(into_iter(cvec))))
-            pushes = s.calls_to('JobBroker::push')
+            import roles
+            pushes = roles.calls_role(F, s, 'push')
             okp = False
             for pcall in pushes:
                 v = s.trace_chain(s.val(pcall.args[1]),
@@ -426,7 +427,8 @@ def r7_market(ctx, F):
     if nclear < 2:
         raise AnchorMissing('expected >=2 discard sites in job_market, found %d' % nclear)
     # split_and_push: every split-off piece is pushed unless empty
-    sp = F.body('job_market::JobBroker::<Job>::split_and_push')
+    import roles
+    sp = roles.jm(F, 'split_and_push')
     ctx.touched(sp)
     so = sp.one_call('VecDeque::split_off', what='split_off')
     pushes = [c for c in sp.calls_to('Vec::push')]
@@ -442,7 +444,7 @@ def r7_market(ctx, F):
               bad='split_and_push: a piece split off the worker\'s queue can be dropped without being '
                   'pushed to the market')
     # pop returns a batch removed from job_batches or an empty deque
-    pop = F.body('job_market::JobBroker::<Job>::pop')
+    pop = roles.jm(F, 'pop')
     ctx.touched(pop)
     ok = True
     n = 0
@@ -466,7 +468,7 @@ def r7_market(ctx, F):
               bad='JobBroker::pop returns something other than a batch removed from job_batches or '
                   'an empty deque')
     # push: the batch is stored unless the market is closed
-    push = F.body('job_market::JobBroker::<Job>::push')
+    push = roles.jm(F, 'push')
     ctx.touched(push)
     vp = push.calls_to('Vec::push')
     okp = len(vp) == 1 and noref(push.val(vp[0].args[1])) == V('arg', 2)
